@@ -64,8 +64,7 @@ Definition round_inc (md : mode) (neg : bool) (q r d : Z) : bool :=
 Definition round_q (md : mode) (prec : Z) (neg : bool) (n d : Z) : bf :=
   let e := qlog2 n d - (prec - 1) in
   let '(n', d') := unscale n d e in
-  let q := n' / d' in
-  let r := n' mod d' in
+  let '(q, r) := Z.div_eucl n' d' in
   BF (if round_inc md neg q r d' then q + 1 else q) e.
 
 (* Float.Mul of two finite magnitudes, receiver precision/mode given *)
@@ -214,8 +213,9 @@ Fixpoint digits_fuel (fuel : nat) (n : Z) (acc : bytes) : bytes :=
   match fuel with
   | O => acc
   | S f =>
-    let acc' := Z.to_N (48 + n mod 10) :: acc in
-    if n <? 10 then acc' else digits_fuel f (n / 10) acc'
+    let '(q, r) := Z.div_eucl n 10 in
+    let acc' := Z.to_N (48 + r) :: acc in
+    if n <? 10 then acc' else digits_fuel f q acc'
   end.
 Definition digits (n : Z) : bytes := digits_fuel (S (Z.to_nat (Z.log2 n))) n [].
 
